@@ -33,6 +33,13 @@ def cases_for(ctx, focus_limits):
             high = sorted(l for l in lv if l >= 10) or sorted(lv) or [1]
             spec = gen_rulesets.gen_ruleset(rng, omen=om, max_vals=3, max_pos=3, markov=True, markov_levels=high)
             dist['high_level_markov'] = dist.get('high_level_markov', 0) + 1
+        elif i == 0:
+            # one grammar object expands Markov levels 1..8 of a three-letter model one after the other (as a session does): the memo
+            # table filled by earlier levels is in use for the later ones
+            om = gen_omen.gen_omen(rng, ngram=2, nletters=3, maxlen_extra=3, levels=[0, 1, 2, 3], density=1.0)
+            spec = gen_rulesets.gen_ruleset(rng, omen=om, max_vals=2, max_pos=2, max_structs=1, markov=True)
+            spec['omen_prob'] = [[str(L), repr(0.5 ** (k + 1))] for k, L in enumerate(range(1, 9))]
+            dist['markov_level_sequence'] = 8
         else:
             om = gen_omen.gen_omen(rng, ngram=rng.choice([2, 3]), nletters=2, maxlen_extra=rng.choice([1, 2]))
             spec = gen_rulesets.gen_ruleset(rng, omen=om, max_vals=3, max_pos=4)
@@ -57,10 +64,13 @@ def cases_for(ctx, focus_limits):
         exp += ['ok'] * len(gops)
         nodes = list(gen_rulesets.all_nodes(grid))
         rng.shuffle(nodes)
-        for b, idx in nodes[:ctx.scale(5, 10)]:
+        if i == 0:
+            mnodes = sorted((n_ for n_ in nodes if grid[n_[0]][2] and grid[n_[0]][2][0] == 'M'), key=lambda n_: n_[1])
+            nodes = mnodes + [n_ for n_ in nodes if n_ not in mnodes][:3]
+        for b, idx in (nodes if i == 0 else nodes[:ctx.scale(5, 10)]):
             pt = [(r, j) for r, j in zip(grid[b][2], idx)]
             total = corr_expand.pt_size(pcfg, pt)
-            if total > 400:
+            if total > 400 and i != 0:
                 continue
             limits = corr_expand.limits_for(total, rng, ctx.quick) if focus_limits else [None]
             want = corr_expand.product_oracle(pcfg, pt)
